@@ -387,15 +387,16 @@ impl EncodingVersion for EncodingVersion2 {
             let emheader: u32 = deserializer.deserialize_primitive_type()?;
             let current_pid = (emheader & 0x0fffffff) as u16;
             let lc = (emheader & 0b01110000_00000000_00000000_00000000) >> 28;
-            let length = match lc {
+            // NEXTINT comes from the wire: its multiples must not be computed in 32 bits
+            let length: usize = match lc {
                 0 => 1,
                 1 => 2,
                 2 => 4,
                 3 => 8,
-                4 => deserializer.deserialize_primitive_type::<u32>()?,
-                5 => deserializer.deserialize_primitive_type::<u32>()?,
-                6 => 4 * deserializer.deserialize_primitive_type::<u32>()?,
-                7 => 8 * deserializer.deserialize_primitive_type::<u32>()?,
+                4 => deserializer.deserialize_primitive_type::<u32>()? as usize,
+                5 => deserializer.deserialize_primitive_type::<u32>()? as usize,
+                6 => 4 * deserializer.deserialize_primitive_type::<u32>()? as usize,
+                7 => 8 * deserializer.deserialize_primitive_type::<u32>()? as usize,
                 _ => unimplemented!("LC not possible"),
             };
 
@@ -405,7 +406,7 @@ impl EncodingVersion for EncodingVersion2 {
                 }
                 return Ok(length as u16);
             } else {
-                deserializer.reader.seek(length as usize)?;
+                deserializer.reader.seek(length)?;
                 Self::align(deserializer, 4)?;
             }
         }
